@@ -19,6 +19,7 @@ META = {
 def run(ctx):
     binary = vlib.build(ctx, "lang")
     n = 4000 if ctx.thorough else 500
+    langcheck.run_witnesses(ctx, binary)
     langcheck.run_profile(ctx, binary, "lang", ctx.seed * 100000, n)
     ctx.cov["rule"] = ("programs = MtailGen!GenCase(seed) for consecutive seeds (typed grammar: declarations, pattern conditions with typed "
                        "captures, nested/else/otherwise, decorators, all binary operators, builtins, del/stop); evaluations = (program,line) "
